@@ -47,10 +47,10 @@ FUNCTIONS = ['OperatorDict.__getitem__/__call__/_call_binary (func vs numspace[f
              'Registry.__getitem__/__call__', 'do_compile (glue calling generated functions by name)', 'do_codegen (function naming)',
              'Algebra.register', 'TapeRecorder.binary_operator/unary_operator', 'MultiVector.map/filter/grade/__call__/_callable/issymbolic/free_symbols (cached properties)']
 ASSUMPTIONS = ['operand values symbolic; histories/patterns/routes enumerated; thread schedules enumerated under a preemption bound (context-bounded, CHESS style) with preemption at line boundaries of the watched functions',
-               'two USER functions registered under the same Python name share a slot -- not demanded (same as rebinding a global)']
+               ]
 BOUNDS = {'quick': 'perm-histories: 14 binary + 8 unary operators x key sets of <=3 blades in all orderings (d=2), samples in d=3 and d=5,6 (two-digit keys), routes plain / wrapper (wraps, closure) / register / register(symbolic) / re-entrant wrapper; name classes over an ambiguous-spelling key pool (d=5); swapped-operand histories incl. d=7; operator sweeps (29 operators, two passes); flaky wrapper; 120 mixed histories of length <=3; 90 multivector-object histories; 14 two-thread scenarios x all schedules with <=1 preemption (about 110-400 schedules each, budget 400)',
           'thorough': 'the same families with 5-10x the samples; 8000 mixed histories of length <=5; 1200 object histories; 24 two-thread scenarios x all schedules with <=2 preemptions (budget 6000 schedules each)'}
-OUTSIDE = ['thread schedules with more than 2 preemptions (1 in the quick tier), more than two threads, preemption inside a source line or inside functions other than the cache / generation drivers', 'histories longer than the bound', 'same-name user functions']
+OUTSIDE = ['thread schedules with more than 2 preemptions (1 in the quick tier), more than two threads, preemption inside a source line or inside functions other than the cache / generation drivers', 'histories longer than the bound']
 LABEL_MOVEMENT = True
 RULE = 'histories are enumerated/seeded deterministically; a case is non-trivial when it executed a history on symbolic operands and compared at least one result with a fresh algebra (on a correct tree most comparisons are between syntactically identical solver terms, the rest are z3 queries)'
 OPTS = {'rlimit': 200_000_000, 'canary_every': 10}
@@ -191,6 +191,11 @@ def cases(tier, seed):
     for i in range(n):
         out.append(dict(kind='mixed-history', cfg=rng.choice(cfgs2 + [dict(p=3), dict(p=2, r=1)]), hseed=rng.randrange(10 ** 9),
                         length=rng.randint(2, L), wrapper=bool(rng.random() < 0.5)))
+    # --- registered functions that share a Python __name__ (closures of one factory, a user function called div / sqrt ...)
+    for scenario in ('closures', 'closures-nested', 'closures-symbolic', 'named-div', 'named-sqrt', 'named-custom', 'named-codegen_gp', 'redefined'):
+        for wrapped in (False, True):
+            for cfg in (cfgs2 if tier == 'thorough' else cfgs2[:2]):
+                out.append(dict(kind='same-name', cfg=cfg, scenario=scenario, wrapped=wrapped, ka=rng.sample(range(4), 2), kb=rng.sample(range(4), 2)))
     # --- two threads: every schedule with at most k preemptions at line boundaries of the cache / generation drivers
     scen = [('same', 'gp'), ('same', 'add'), ('same', 'sw'), ('permuted', 'gp'), ('permuted', 'sub'), ('permuted', 'op'), ('two-ops', 'sw'), ('two-ops', 'proj'),
             ('same', 'inv'), ('permuted', 'reverse'), ('symbolic-call', 'gp'), ('registered', 'gp'), ('registered', 'sw')]
@@ -274,6 +279,8 @@ def run_case(desc, V):
         return _run_flaky(desc, V)
     if desc['kind'] == 'object-history':
         return _run_object(desc, V)
+    if desc['kind'] == 'same-name':
+        return _run_same_name(desc, V)
     if desc['kind'] == 'thread-schedules':
         return _run_threads(desc, V)
     return _run_mixed(desc, V)
@@ -756,3 +763,78 @@ def _fmt_trace(trace):
     if prev is not None:
         out.append(f'T{prev}x{n}')
     return ' '.join(out)
+
+
+# --------------------------------------------------------------------------- registered functions sharing a name
+
+def _mk_scale(k):
+    def scale(a):
+        return k * a
+    return scale
+
+
+def _mk_named(name, body, nargs):
+    ns = {}
+    args = ', '.join('ab'[:nargs])
+    exec(f'def {name}({args}):\n    return {body}\n', ns)
+    return ns[name]
+
+
+def _run_same_name(desc, V):
+    """
+    Distinct function objects with one Python __name__ are registered on ONE algebra; each result is compared with
+    the plain Python function (= what a fresh algebra returns), before and after the others were called.
+    """
+    cfg = dict(desc['cfg'])
+    if desc['wrapped']:
+        cfg['wrapper'] = 'identity'
+    alg = make_alg(cfg)
+    sc = desc['scenario']
+    x = mv(alg, V, 'x', desc['ka'])
+    y = mv(alg, V, 'y', desc['kb'])
+    fkey = f'same-name|{sc}|{"wrapper" if desc["wrapped"] else "plain"}'
+    claims = [Note('nontrivial', '')]
+    calls = []          # (label, registered callable, plain callable, args)
+    if sc in ('closures', 'closures-symbolic', 'closures-nested'):
+        f2, f3 = _mk_scale(2), _mk_scale(3)
+        symbolic = sc == 'closures-symbolic'
+        r2 = alg.register(f2, symbolic=True) if symbolic else alg.register(f2)
+        r3 = alg.register(f3, symbolic=True) if symbolic else alg.register(f3)
+        if sc == 'closures-nested':
+            outer = _mk_named('c09_outer', 'inner(a) + a', 1)
+            outer.__globals__['inner'] = r2
+            ro = alg.register(outer)
+            plain_outer = lambda a: 2 * a + a
+            calls = [('outer#0', ro, plain_outer, [x]), ('triple', r3, f3, [x]), ('outer#1', ro, plain_outer, [x]), ('double', r2, f2, [x]), ('outer#2', ro, plain_outer, [x])]
+        else:
+            calls = [('double#0', r2, f2, [x]), ('triple#0', r3, f3, [x]), ('double#1', r2, f2, [x]), ('triple#1', r3, f3, [x]), ('double(y)', r2, f2, [y])]
+    elif sc == 'redefined':
+        # the documented decorator form used twice for the same name (a notebook cell run again with another body)
+        g1 = _mk_named('c09_cell', 'a * b', 2)
+        g2 = _mk_named('c09_cell', 'a ^ b', 2)
+        r1, r2 = alg.register(g1), alg.register(g2)
+        calls = [('first#0', r1, g1, [x, y]), ('second#0', r2, g2, [x, y]), ('first#1', r1, g1, [x, y]), ('second#1', r2, g2, [x, y])]
+    else:
+        name = sc.split('-', 1)[1]
+        user = {'div': ('a / b', 2), 'sqrt': ('a * a', 1), 'custom': ('a + a', 1), 'codegen_gp': ('a ^ b', 2)}[name]
+        other = {'div': ('a / b', 2), 'sqrt': ('(a * a) + a', 1), 'custom': ('a * a', 1), 'codegen_gp': ('a * b', 2)}[name]
+        fu = _mk_named(name, *user)
+        fo = _mk_named('c09_other', *other)
+        ru, ro = alg.register(fu), alg.register(fo)
+        au = [x, y][:user[1]]
+        ao = [x, y][:other[1]]
+        calls = [('other#0', ro, fo, ao), ('user#0', ru, fu, au), ('other#1', ro, fo, ao), ('user#1', ru, fu, au)]
+    for label, reg, plain, args in calls:
+        try:
+            want = coeffs(plain(*args))
+        except ZeroDivisionError:
+            continue
+        try:
+            got = reg(*args)
+        except ZeroDivisionError:
+            continue
+        except RecursionError as e:
+            claims.append(Fail(f'{label}:raises', f'{label}: the registered function raised RecursionError (the plain function returns)', fkey=fkey + '|raises'))
+            continue
+        claims += mv_eq_claims(label, got, want, fkey=fkey)
+    return claims
